@@ -18,7 +18,7 @@ pub struct C02;
 // under plain concatenation ("a"+"bc" = "ab"+"c" = "abc"+""), and under concatenation with a separator
 // ("x"+"_"+"y_z" = "x_y"+"_"+"z", likewise for ":"), plus pairs of long strings that differ only in their
 // last character (a key that looks at a prefix or at less than everything would confuse them).
-const CHAINS: [&str; 10] = [
+const CHAINS: [&str; 12] = [
     "",
     "a",
     "ab",
@@ -29,8 +29,10 @@ const CHAINS: [&str; 10] = [
     "x_y",
     "p",
     "p:q",
+    "A",
+    "a ",
 ];
-const IDS: [&str; 10] = [
+const IDS: [&str; 12] = [
     "",
     "c",
     "bc",
@@ -41,8 +43,10 @@ const IDS: [&str; 10] = [
     "z",
     "q:r",
     "r",
+    "C",
+    " c",
 ];
-const NC: u8 = 10;
+const NC: u8 = 12;
 const JOINERS: [&str; 3] = ["", "_", ":"];
 const SRCS: [&str; 3] = ["src", "src2", ""];
 
@@ -81,7 +85,7 @@ fn op() -> impl Strategy<Value = Op> {
     prop_oneof![
         4 => proptest::collection::vec(mref(), 1..5).prop_map(Op::Approve),
         2 => (0u8..3, mref(), prop_oneof![4 => Just(true), 1 => Just(false)]).prop_map(|(caller, m, authorised)| Op::Validate { caller, m, authorised }),
-        5 => (0u8..100, 0u8..8, prop_oneof![6 => Just(true), 1 => Just(false)]).prop_map(|(slot, change, authorised)| Op::ValidateStored { slot, change, authorised }),
+        5 => (0u8..144, 0u8..8, prop_oneof![6 => Just(true), 1 => Just(false)]).prop_map(|(slot, change, authorised)| Op::ValidateStored { slot, change, authorised }),
         1 => mref().prop_map(|m| Op::ValidateAsOther { m }),
         1 => (1u8..90).prop_map(Op::AdvanceDays),
     ]
@@ -135,7 +139,7 @@ impl Property for C02 {
         "C02"
     }
     fn rule(&self) -> &'static str {
-        "proptest histories (<=30 quick / <=60 thorough ops) of batched approvals (with in-batch duplicates and re-use of known ids), consumption attempts (probe contract calling as itself, accounts with/without authorisation, exact replay of a stored message or with one field changed, a contract naming another address) and ledger advancement by 1-89 days (<= 250 days in total; statuses must not decay) over pools built to collide: 10 chains x 10 ids such that several pairs consist of the same characters split differently between chain and id (plain concatenation: a+bc = ab+c = abc+\"\"; with separators: x + y_z vs x_y + z, p + q:r vs p:q + r) and two pairs of 70-character strings differing only in the last character; oracle = reference map (chain,id)->NotApproved/Approved(msg)/Executed moving only forward, event trace per op, sweep of is_message_executed over every known id and every id that collides with a known one and is_message_approved over stored messages and one-field variants after every op. non-trivial = history re-approves an executed id, or consumes with exactly one mismatching field after an approval, or has an in-batch duplicate id, or touches two ids whose chain||id concatenations coincide"
+        "proptest histories (<=30 quick / <=60 thorough ops) of batched approvals (with in-batch duplicates and re-use of known ids), consumption attempts (probe contract calling as itself, accounts with/without authorisation, exact replay of a stored message or with one field changed, a contract naming another address) and ledger advancement by 1-89 days (<= 250 days in total; statuses must not decay) over pools built to collide: 12 chains x 12 ids such that several pairs consist of the same characters split differently between chain and id (plain concatenation: a+bc = ab+c = abc+\"\"; with separators: x + y_z vs x_y + z, p + q:r vs p:q + r) two pairs of 70-character strings differing only in the last character, and strings differing only in letter case or a leading/trailing space; oracle = reference map (chain,id)->NotApproved/Approved(msg)/Executed moving only forward, event trace per op, sweep of is_message_executed over every known id and every id that collides with a known one and is_message_approved over stored messages and one-field variants after every op. non-trivial = history re-approves an executed id, or consumes with exactly one mismatching field after an approval, or has an in-batch duplicate id, or touches two ids whose chain||id concatenations coincide"
     }
     fn cases(&self, tier: Tier) -> u64 {
         tier.pick(3000, 40000)
